@@ -144,7 +144,9 @@ func (h *DBH) RunTx(st Step, writable bool, pre func(i int, op *Op)) (tr TxResul
 				h.Dead = true
 			}
 		}()
+		var kept *nutsdb.Tx // the handle as an application that keeps it beyond the function would have it
 		fn := func(tx *nutsdb.Tx) error {
+			kept = tx
 			body(tx)
 			switch end {
 			case "fnerr":
@@ -169,6 +171,20 @@ func (h *DBH) RunTx(st Step, writable bool, pre func(i int, op *Op)) (tr TxResul
 			// db.Update/db.View returned an error but kept the database lock: every later transaction would block forever
 			tr.Panic = "DEADLOCK: the database lock is still held after db.Update/db.View returned the error: " + err.Error()
 			h.Dead = true
+			return
+		}
+		if len(st.After) > 0 && kept != nil {
+			// calls on the finished transaction's handle: first with no transaction open, then again from inside a
+			// later (otherwise empty) managed write transaction, which commits - AfterRes holds both rounds
+			for _, op := range st.After {
+				tr.AfterRes = append(tr.AfterRes, ExecOp(h, kept, op))
+			}
+			_ = h.DB.Update(func(tx2 *nutsdb.Tx) error {
+				for _, op := range st.After {
+					tr.AfterRes = append(tr.AfterRes, ExecOp(h, kept, op))
+				}
+				return nil
+			})
 		}
 		return
 	}
